@@ -23,8 +23,8 @@ type diffOpts struct {
 	Stress   string // plain | tight | pregrown | recycle
 	Stdin    string
 	Layout   *ast.Layout
-	Residue  bool // check (sp, frames, closures, contexts) after each statement
-	Globals  bool // compare the complete global frame with the reference after each statement
+	Residue  bool   // check (sp, frames, closures, contexts) after each statement
+	Globals  bool   // compare the complete global frame with the reference after each statement
 	Marker   string // a marker that must never appear in the program output (self-checks written in calc)
 	StepMult int
 }
@@ -36,17 +36,17 @@ type stmtPair struct {
 }
 
 type diffOutcome struct {
-	Verdict  string // core verdicts; Dropped/Inconclusive carry Reason
-	Reason   string
-	Monitor  string
-	Detail   string
-	Pairs    []stmtPair
-	Executed int
-	Stats    rs.Stats
-	Shapes   []string
+	Verdict                    string // core verdicts; Dropped/Inconclusive carry Reason
+	Reason                     string
+	Monitor                    string
+	Detail                     string
+	Pairs                      []stmtPair
+	Executed                   int
+	Stats                      rs.Stats
+	Shapes                     []string
 	Grow, CloneNew, CloneReuse int
-	MaxVMSteps int
-	Panic    *calcrun.PanicInfo
+	MaxVMSteps                 int
+	Panic                      *calcrun.PanicInfo
 }
 
 func sameValue(a, b val.Value) bool { return val.Same(a, b) }
